@@ -187,7 +187,10 @@ class World:
         self.tick()
         self.apps.append([1, canon(x)])
         self.k["p"] = x
-        return self.k(MONADS[vid][1])
+        r = self.k(MONADS[vid][1])
+        if getattr(r, "size", 0) > 5000 or (isinstance(r, str) and len(r) > 5000):
+            raise Budget()          # an orbit that grows without bound: treated like one that never ends
+        return r
 
     def pred(self, pid, x):
         self.tick()
